@@ -109,7 +109,7 @@ def run(ck, prop, stream, families_note, variants=None, judge=None, theorems=Non
             bad.append((c, ref, {"variant": "?", "par": 0}, "worker: " + " ".join(meta["crash"])))
             continue
         # tie of the Lean machine model (Model.Seq) to the Go machines MVP-1/MVP-2: status, cycles, final state
-        for key, var in (("m1", "mvp1"), ("m2", "mvp2"), ("m3", "mvp3"), ("m4", "mvp4")):
+        for key, var in (("m1", "mvp1"), ("m2", "mvp2"), ("m3", "mvp3"), ("m4", "mvp4"), ("m5", "mvp5")):
             rr = [x for x in res if x["variant"] == var]
             if mods and key in ref and rr:
                 h, cyc, _, same = ref[key].split(",")
